@@ -123,6 +123,8 @@ class Gateway:
         elif action == "lose_keep":            # device vanishes but already produced reports are still readable first
             self.present = False
         elif action == "return":
+            if not self.present and self.sc.get("rename_on_return"):
+                self.node = getattr(self, "node", 0) + 1          # re-enumerated: same device, new node name
             self.present = True
         elif action == "write_error":
             self.write_error = True
@@ -160,6 +162,35 @@ class Gateway:
 # HID gateways behind a replacement for the `os` module used by dali.driver.hid
 # ---------------------------------------------------------------------------------------------
 
+class FakeGlob:
+    """stands in for the glob module in dali.driver.hid: the pattern matches the node the device currently has"""
+
+    def __init__(self, gw):
+        self.gw = gw
+
+    def glob(self, pattern):
+        gw = self.gw
+        if not gw.present:
+            # an attempt that ends here never reaches open(): it is logged as a failed attempt all the same
+            gw.opens = getattr(gw, "opens", 0) + 1
+            if not hasattr(gw, "openlog"):
+                gw.openlog = []
+            gw.openlog.append([round(gw.loop.time(), 6), 0])
+            if getattr(gw, "elog", None) and gw.opens > 1:
+                gw.elog({"ev": "open_failed"})
+            return []
+        import fnmatch
+        node = "/dev/fake-dali%d" % getattr(gw, "node", 0)
+        if fnmatch.fnmatchcase(node, pattern):
+            return [node]
+        # the device is there, but not under a name the given pattern matches: a failed attempt
+        gw.opens = getattr(gw, "opens", 0) + 1
+        if not hasattr(gw, "openlog"):
+            gw.openlog = []
+        gw.openlog.append([round(gw.loop.time(), 6), 0])
+        return []
+
+
 class FakeHidOS:
     O_RDWR = 2
     O_NONBLOCK = 2048
@@ -177,7 +208,7 @@ class FakeHidOS:
         gw.openlog.append([round(gw.loop.time(), 6), 1 if gw.present else 0])
         if getattr(gw, "elog", None) and gw.opens > 1:
             gw.elog({"ev": "open_ok" if gw.present else "open_failed"})
-        if not gw.present:
+        if not gw.present or (gw.sc.get("glob") and path != "/dev/fake-dali%d" % getattr(gw, "node", 0)):
             raise OSError(19, "No such device")
         self._next_fd += 1
         gw.fd = self._next_fd
